@@ -32,7 +32,8 @@ STATIC_SITE_ERRORS = {
     "MaxServingsLowerThanLargestRecipeError", "LinkToExternalFileError", "LinkToNonExistentFileError",
 }
 FAULT_CLASS = {
-    "multiple-readme": "MultipleReadmeError", "readme-missing-title": "ReadmeMissingTitleError",
+    "multiple-readme": "MultipleReadmeError", "multiple-readme-same-name": "MultipleReadmeError",
+    "empty-recipe-block": "RecipeInDirectoryCompileError", "readme-missing-title": "ReadmeMissingTitleError",
     "readme-malformed-title": "ReadmeMalformedTitleError", "recipe-missing-title": "RecipeMissingTitleError",
     "compile": "RecipeInDirectoryCompileError", "title-with-scaled-value": "RecipeMissingTitleError", "max-servings": "MaxServingsLowerThanLargestRecipeError",
     "link-outside-dots": "LinkToExternalFileError", "link-outside-abs-symlink": "LinkToExternalFileError",
@@ -146,6 +147,13 @@ def exc_name(e: BaseException) -> str:
 
 # ------------------------------------------------------------------------------------------------ reading pages back
 
+# HYPOTHESIS about lxml (4.9): Element.rewrite_links visits, per element in document order, the attributes of
+# lxml.html.defs.link_attrs and then every url(...) of a style attribute.  The reader below extracts the same from the
+# SOURCE documents and from the generated pages with html.parser (one link attribute per element in generated inputs).
+LINK_ATTRS = {"action", "archive", "background", "cite", "classid", "codebase", "data", "dynsrc", "formaction", "href",
+              "longdesc", "lowsrc", "profile", "src", "usemap"}
+_CSS_URL = _re_early = __import__("re").compile(r"url\(\s*([^)]*?)\s*\)")
+
 VOID = {"area", "base", "br", "col", "embed", "hr", "img", "input", "link", "meta", "param", "source", "track", "wbr"}
 
 
@@ -200,10 +208,16 @@ class PageParser(HTMLParser):
             self.stack.append((tag, attrs))
         ctx = self.context()
         for k, v in attrs_l:
-            if k in ("href", "src"):
+            if k in LINK_ATTRS:
                 self.refs.append((k, v or "", ctx))
                 if ctx == "body":
                     self.items.append(("L", k, v or ""))
+        for k, v in attrs_l:
+            if k == "style" and v:
+                for m in _CSS_URL.finditer(v):
+                    self.refs.append(("style", m.group(1), ctx))
+                    if ctx == "body":
+                        self.items.append(("L", "style", m.group(1)))
         if tag == "a":
             href = attrs.get("href") or ""
             target = {"crumb": self.crumbs, "cat": self.cats, "rec": self.recs, "serv": self.servs,
@@ -636,11 +650,43 @@ def oracle_linear_scaling(site: Dict[str, Any], obs: Dict[str, Any], exp: Dict[s
     return None
 
 
+_SERVING_PHRASE = _re.compile(r"\s+(?:(?:to\s+)?serves?|to\s+make|for|makes|serving)\s+([0-9]+)\s*$", _re.IGNORECASE)
+
+
+def documented_servings(text: str) -> Any:
+    """The serving count a recipe's title states according to the DOCUMENTATION ('for N', 'serves N', 'makes N',
+    'to serve N', 'serving N', 'to make N', in any letter case) - read from the Markdown source, not with the
+    implementation's parser.  "skip" when the first heading is not a plain-text ATX level-1 heading."""
+    for ln in text.split("\n"):
+        if _re.match(r"^ {0,3}#{1,6}(\s|$)", ln):
+            m = _re.match(r"^# (.*)$", ln)
+            if not m:
+                return "skip"
+            h = m.group(1).strip()
+            if not h or _re.search(r"[<>&*_`\[\]{}\\%#!~|\u00a0\u2000-\u200b\u3000]", h):
+                return "skip"
+            ms = _SERVING_PHRASE.search(h)
+            return int(ms.group(1)) if ms else None
+        if ln.strip() and not ln.startswith("    "):
+            # text before the first heading: still fine (the first HEADING counts), keep looking
+            continue
+    return "skip"
+
+
 def oracle_pages(site: Dict[str, Any], obs: Dict[str, Any], real: Dict[str, Any], facts: Dict[str, Any]) -> Optional[str]:
     """C15: exactly the promised pages (+ assets), recipe pages scaled by n / native, menus 1..M, lists by title."""
     if "error" in obs:
         return None
     M = site["M"]
+    # the serving count of every recipe as the documentation defines it (independent of the implementation's parser)
+    for text, f in facts["recipes"].items():
+        if f["err"]:
+            continue
+        want = documented_servings(text)
+        if want != "skip" and want != f["servings"]:
+            return (f"the title line {text.splitlines()[0] if text.startswith('#') else '...'!r} states "
+                    f"{want if want is not None else 'no'} servings but the recipe is treated as "
+                    f"{'stating ' + str(f['servings']) if f['servings'] is not None else 'not stating any'}")
     exp = expected_pages(site, real, facts)
     clashes = exp.pop("__clashes__")
     if clashes:
@@ -1604,7 +1650,9 @@ def gen_history(rng: random.Random, site: Dict[str, Any]) -> List[Dict[str, Any]
     if cands and rng.random() < 0.3:
         p, _n = rng.choice(cands)
         steps.append({"op": "write", "file": list(p), "text": rng.choice(["# Pancakes {3} ways for 2\n\nText {2}\n",
-                                                                          "# Feeds about {4} people\n\n    2 eggs\n"])})
+                                                                          "# Feeds about {4} people\n\n    2 eggs\n",
+                                                                          "# T for 2\n\n    2 eggs\n\n```recipe\n```\n",
+                                                                          "# T\n\n```recipe\n\n  \n```\n\nx {3}\n\n```recipe\n1 egg\n```\n"])})
         steps.append({"op": "gen", "M": site["M"], "order": rng.randrange(10 ** 6), "rng": rng.randrange(10 ** 6)})
     return steps
 
